@@ -240,6 +240,18 @@ def odd_name_funnel_corpus(rng):
                                   "Y": {"values": ["a", "b"], "label": "Y.%%"}}}
 
 
+def empty_value_corpus():
+    """a token whose value is the empty string, in fields that hold nothing else: the field becomes empty,
+    the token does not stay (seeded change C09-n: `func(item) or item` in `apply_function`)"""
+    return {"description": {"name": "blank", "description": "values that are empty"},
+            "study": [{"name": "hook", "description": "d",
+                       "run": {"cmd": "$(HOOK)", "restart": "$(HOOK)", "reservation": "$(RES)"}},
+                      {"name": "mixed", "description": "d",
+                       "run": {"cmd": "run $(HOOK)$(RES) --tag=$(RES.label)", "depends": ["hook"]}}],
+            "global.parameters": {"HOOK": {"values": ["", "echo hi", ""], "label": "HOOK.%%"},
+                                  "RES": {"values": ["", "", "debugq"], "label": "RES.%%"}}}
+
+
 def envadd_cases(ctx, n):
     """`StudyEnvironment.add` item by item - which definitions become labels, what a repeated name does -
     and `apply_environment` on the result, against Model/Env.lean"""
@@ -342,6 +354,16 @@ def run(ctx, escalated=False):
         c.data["kind"] = "study"
         cases.append(c)
         ctx.count("label-first-corpus")
+    for hw in (False, True):
+        c = expprop.one_case(ctx, "blank%d" % int(hw), adversarial=False, monitor=mon, pgen=False,
+                             spec=empty_value_corpus(), hash_ws=hw)
+        if c is not None:
+            c.data["kind"] = "study"
+            c.nontrivial = True
+            cases.append(c)
+            ctx.count("empty-value-corpus" + ("" if c.judged else "-unjudged"))
+        else:
+            ctx.count("empty-value-corpus-rejected")
     for k in range(6 if quick else 60):
         c = expprop.one_case(ctx, "odd%d" % k, adversarial=False, monitor=mon, pgen=False,
                              spec=odd_name_funnel_corpus(ctx.rng))
